@@ -126,7 +126,7 @@ func (w *world) runConsumer(x *consumer) {
 		rc := w.rcOfVal(v)
 		if rc == nil {
 			x.inCall = false
-			c.Fail("C10.W1.unknown-value", "%s returned a value the resolver never returned", names[x.kind])
+			c.Fail("C10.W1.unknown-value", "%s returned a value the resolver never returned (nil=%v)", names[x.kind], v == nil)
 			return
 		}
 		// if the resolver handed out this pointer more than once, which call the
